@@ -47,6 +47,17 @@ class C01Mon(Monitor):
             if so.kind == LIMIT_ORDER:
                 V(f.price >= so.price, "C01.sell_limit", "fill price below the seller's limit",
                   "price=%s sell=%s" % (f.price, fmt(so)))
+            # ... and the limits as the submitters stated them (an off-grid limit is accepted on the grid; whatever
+            # the book did with it, the trade must not be worse for its owner than the price it asked for)
+            sb, ss = w.ent(bo).sub_price, w.ent(so).sub_price
+            if sb is not None:
+                V(f.price <= sb, "C01.buy_limit_submitted", "fill price above the limit the buyer submitted",
+                  "price=%s submitted=%s accepted as %s" % (f.price, sb, fmt(bo)))
+            if ss is not None:
+                V(f.price >= ss, "C01.sell_limit_submitted", "fill price below the limit the seller submitted",
+                  "price=%s submitted=%s accepted as %s" % (f.price, ss, fmt(so)))
+            if (sb is not None and sb != bo.price) or (ss is not None and ss != so.price):
+                w.wit.inc("fill_of_off_grid_limit")
             if bo.kind == MARKET_ORDER or so.kind == MARKET_ORDER:
                 w.wit.inc("market_vs_limit_fill")
         f = fills[-1]
@@ -274,7 +285,7 @@ class C04Mon(Monitor):
                 o = byid[l.order_id]
                 e = w.by_id[id(o)]
                 V(e.n not in self.term, "C04.expiry_after_terminal", "expiry of an order that already had a terminal event")
-                V(o.ttl is not None and m.time == o.placed_at + o.ttl + 1, "C04.expiry_time",
+                V(o.ttl is not None and sub.time <= o.placed_at + o.ttl < m.time, "C04.expiry_time",
                   "order left the book at a step other than the one taking the clock past acceptance + ttl",
                   "%s ttl=%s now=%s" % (fmt(o), o.ttl, m.time))
                 V(l.volume == e.acc - e.fills, "C04.expiry_volume",
